@@ -14,7 +14,10 @@ RULE = ('complete grid of (t, now, c, threshold) with t-c in -2..2, (t-now)-thre
         'grid of ts / t / slack thresholds; Hypothesis 63-bit quadruples. Oracle: the formulas of the property '
         'statement. non-trivial = within +-2 of a boundary (constraint or slack); distinct = the tuple incl. encoding.')
 ASSUMPTIONS = ['verifier clock pinned through functions.time / tools.time; now = int(clock); clocks are non-negative',
-               'CHECK_EPOCH with a negative threshold is an error by documentation and is not compared']
+               'CHECK_EPOCH with a negative threshold is an error by documentation and is not compared',
+               'the between lock is judged as begin <= t < end within slack: its lower bound is an after-constraint, for which the '
+               'statement names the slack, and rejecting a timestamp the verifier does not trust is the safe direction; only the '
+               'before lock ACCEPTING an untrusted t >= ts is reported (known finding D14)']
 
 TRUE, FALSE = [b'\xff'], [b'\x00']
 
